@@ -551,6 +551,69 @@ async fn main(plan: Plan) -> Outcome {
         }
         world::sleep_ns(200 * MS).await;
     }
+    // (e) "The session keeps working through the remaining ... connections": one of
+    // several pool connections of a node is reset while the node accepts no new
+    // connections for a while (the replacement cannot be opened). Requests submitted
+    // a second later must be served by the remaining connections, not be handed the
+    // dead one.
+    if plan.enumerated.is_none() && out.violations.is_empty() {
+        let victim: Option<(usize, ConnId)> = {
+            let w = world::world();
+            let mut pick = None;
+            for n in 0..w.cluster.nodes.len() {
+                let pool_conns: Vec<ConnId> = w
+                    .live_conns_of(n)
+                    .into_iter()
+                    .filter(|c| w.conns[*c].cql.started && w.conns[*c].cql.registered.is_empty() && !w.conns[*c].s2c_stalled)
+                    .collect();
+                if pool_conns.len() >= 2 {
+                    pick = Some((n, pool_conns[0]));
+                    break;
+                }
+            }
+            pick
+        };
+        if let Some((node, conn)) = victim {
+            {
+                let mut w = world::world();
+                w.cluster.nodes[node].up = false; // new connections are refused, existing ones live on
+                w.fault(Fault::Rst);
+                w.log(&format!("kill_one_refuse_new node={node} conn={conn}"));
+                w.srv_close_now(conn, true);
+                w.probe("kill_one_refuse_new");
+            }
+            world::sleep_ns(SEC).await;
+            for _ in 0..24 {
+                idx += 1;
+                let m = idx * 16;
+                let mut st = Statement::new(client::q_marker(m));
+                st.set_is_idempotent(true);
+                match tokio::time::timeout(Duration::from_secs(60), session.query_unpaged(st, ())).await {
+                    Ok(Ok(qr)) => {
+                        if let Err(e) = client::check_marker_rows(qr, m) {
+                            out.violation("c10.attribution", e);
+                        }
+                    }
+                    Ok(Err(e)) => {
+                        out.violation(
+                            "c10.dead_connection_still_used",
+                            format!(
+                                "request marker {m} failed ({}) 1+ s after ONE of several pool connections of node {node} was reset (replacement refused) although its other connections are healthy",
+                                client::short_err(&e)
+                            ),
+                        );
+                        break;
+                    }
+                    Err(_) => {
+                        out.violation("c10.hang", format!("request marker {m} did not return within 60 virtual s after one pool connection of node {node} was reset"));
+                        break;
+                    }
+                }
+                world::sleep_ns(100 * MS).await;
+            }
+            world::world().cluster.nodes[node].up = true;
+        }
+    }
     // (c) a non-idempotent request that reached a node is never sent again.
     {
         let mut w = world::world();
